@@ -101,6 +101,10 @@ pub struct Cmd {
     pub fplan: Vec<IoStep>,
     /// Some => engine E2
     pub e2: Option<E2Params>,
+    /// deliver `stdin` through a pipe (fully written and closed before the process starts)
+    /// instead of a regular file: st_size is 0, /dev/stdin is not seekable
+    #[serde(default)]
+    pub stdin_pipe: bool,
     /// with `e2` params: run the REAL binary under the preload shim's thread scheduler
     /// (engine E3) instead of the shuttle executor
     #[serde(default)]
@@ -446,7 +450,34 @@ pub fn exec(ctx: &Ctx, dir: &Path, cmd: &Cmd) -> Result<Outcome, HarnessError> {
         c.env(k, v);
     }
     c.current_dir(dir);
+    let mut pipe_writer: Option<std::thread::JoinHandle<()>> = None;
     match &cmd.stdin {
+        Some(data) if cmd.stdin_pipe => {
+            use std::os::fd::FromRawFd;
+            let mut fds = [0i32; 2];
+            if unsafe { libc::pipe2(fds.as_mut_ptr(), libc::O_CLOEXEC) } != 0 {
+                return Err(he("pipe2 failed".into()));
+            }
+            let (rd, wr) = unsafe { (std::fs::File::from_raw_fd(fds[0]), std::fs::File::from_raw_fd(fds[1])) };
+            // grow the pipe so that the whole input is in it before the process starts: what
+            // each read(2) returns is then decided by the plan alone
+            unsafe { libc::fcntl(fds[1], libc::F_SETPIPE_SZ, (data.len() + 4096).next_power_of_two().max(65536) as libc::c_int) };
+            let cap = unsafe { libc::fcntl(fds[1], libc::F_GETPIPE_SZ) } as usize;
+            if data.len() <= cap {
+                use std::io::Write;
+                let mut wr = wr;
+                wr.write_all(data).map_err(|e| he(format!("fill pipe: {e}")))?;
+                drop(wr);
+            } else {
+                let data = data.clone();
+                pipe_writer = Some(std::thread::spawn(move || {
+                    use std::io::Write;
+                    let mut wr = wr;
+                    let _ = wr.write_all(&data);
+                }));
+            }
+            c.stdin(rd);
+        }
         Some(data) => {
             std::fs::write(&stdin_path, data).map_err(|e| he(format!("write stdin: {e}")))?;
             c.stdin(std::fs::File::open(&stdin_path).map_err(|e| he(format!("open stdin: {e}")))?);
@@ -462,6 +493,10 @@ pub fn exec(ctx: &Ctx, dir: &Path, cmd: &Cmd) -> Result<Outcome, HarnessError> {
     let pid = child.id();
     watch().lock().unwrap().deadlines.insert(pid, Instant::now() + ctx.timeout);
     let st = child.wait().map_err(|e| he(format!("wait: {e}")))?;
+    drop(c); // closes our copy of the pipe's read end, so a writer thread cannot block for ever
+    if let Some(w) = pipe_writer {
+        let _ = w.join();
+    }
     let killed = {
         let mut w = watch().lock().unwrap();
         w.deadlines.remove(&pid);
